@@ -633,6 +633,7 @@ def run(ctx):
     """kind: 'T' the type under test, 'bits' a BitsW object, ('other', idx) another struct type of the same width"""
     if kind == 'T': return ('s', c)
     if kind == 'bits': return ('b', c.width)
+    if kind[0] == 'bitsw': return ('b', kind[1])            # a live BitsN object of the width of one of the leaves
     return ('s', classes[kind[1]])
   def slot_nodes(sh):
     return [((), sh)] + sh_nodes(sh)
@@ -651,12 +652,27 @@ def run(ctx):
     def new(kind):
       sh = slot_shape(c, kind); v = val(sh)
       how = 'bits' if kind == 'bits' else ('default' if (is_zero(v) and rng.random() < 0.5) else rng.choice(['args', 'partial', 'from_bits', 'from_bits']))
+      d = {'op': 'new', 'kind': list(kind) if isinstance(kind, tuple) else kind, 'value': v, 'how': how, 'ev': rng.randrange(4)}
+      if sh[0] == 's' and kinds and rng.random() < 0.5:
+        # constructor arguments that are LIVE objects: a Bits leaf argument may be any live BitsN object of that width (a Bits object of the
+        # pool, a leaf / list element of another live instance); the same object may go to several fields and to several constructors.
+        # (Only Bits leaves that are direct constructor arguments: nested-struct and list ARGUMENTS are stored by reference by design.)
+        live = []; last = {}
+        srcs = [(a, q, shq[1]) for a in range(len(kinds)) for q, shq in slot_nodes(slot_shape(c, kinds[a])) if shq[0] == 'b']
+        for lp, w in sh_leaves(sh):
+          if any(k_ == 'I' for k_, _ in lp) or rng.random() < 0.4: continue
+          cand = [(a, q) for a, q, w_ in srcs if w_ == w]
+          if not cand: continue
+          a, q = last[w] if (w in last and rng.random() < 0.6) else rng.choice(cand)
+          last[w] = (a, q); live.append({'path': [list(x) for x in lp], 'j': a, 'src_path': [list(x) for x in q]})
+        if live: d['live'] = live; d['how'] = 'args'
       kinds.append(kind); nxt_defined.append(set())
-      return {'op': 'new', 'kind': list(kind) if isinstance(kind, tuple) else kind, 'value': v, 'how': how, 'ev': rng.randrange(4)}
+      return d
     def pick_kind():
       r = rng.random()
       if r < 0.45: return 'T'
-      if r < 0.8 or not others: return 'bits'
+      if r < 0.65: return 'bits'
+      if r < 0.85 or not others: return ('bitsw', rng.choice(sh_leaves(('s', c)))[1])
       return ('other', rng.choice(others).idx)
     seq.append(new('T'))
     if rng.random() < 0.6: seq.append(new('T'))
@@ -690,7 +706,8 @@ def run(ctx):
       elif r < 0.85 and n < 5:
         seq.append({'op': 'clone', 'i': i, 'how': rng.choice(['clone', 'deepcopy'])}); kinds.append(kinds[i]); nxt_defined.append(set())
       elif r < 0.92 and n < 5:
-        seq.append({'op': 'reunpack', 'j': i, 'ev': rng.randrange(4)}); kinds.append('T'); nxt_defined.append(set())      # c.from_bits(x_j.to_bits()) for ANY live x_j
+        jj = rng.choice([a for a in range(n) if sh_width(slot_shape(c, kinds[a])) == W])
+        seq.append({'op': 'reunpack', 'j': jj, 'ev': rng.randrange(4)}); kinds.append('T'); nxt_defined.append(set())      # c.from_bits(x_j.to_bits()) for ANY live x_j
       else: seq.append({'op': 'nop'})
     for d in seq: d['observe'] = rng.random() < 0.75
     seq[-1]['observe'] = True
@@ -720,9 +737,20 @@ def run(ctx):
         if op == 'new':
           kind = tuple(d['kind']) if isinstance(d['kind'], list) else d['kind']
           sh = slot_shape(c, kind)
-          o = mk_bits(sh[1])(d['value']) if sh[0] == 'b' else mk_inst(sh[1], d['value'], d['how'], d.get('ev', 0))[0]
-          objs.append(o); shapes.append(sh); tags.append(0 if sh[0] == 'b' else 1 + sh[1].idx)
+          live = {tuple(tuple(x) for x in e['path']): (e['j'], [tuple(x) for x in e['src_path']]) for e in d.get('live', [])}
+          if live:
+            def bl(s_, v_, pth):        # explicit arguments; the live positions receive the live object itself
+              if s_[0] == 'b': return leaf_obj(shapes[live[pth][0]], objs[live[pth][0]], live[pth][1]) if pth in live else mk_bits(s_[1])(v_)
+              if s_[0] == 's': return ev_cls(s_[1], d.get('ev', 0))(*[bl(f, x, pth + (('F', i_),)) for i_, ((_, f), x) in enumerate(zip(s_[1].fields, v_))])
+              return [bl(s_[2], x, pth + (('I', i_),)) for i_, x in enumerate(v_)]
+            o = bl(sh, d['value'], ())
+          else:
+            o = mk_bits(sh[1])(d['value']) if sh[0] == 'b' else mk_inst(sh[1], d['value'], d['how'], d.get('ev', 0))[0]
+          objs.append(o); shapes.append(sh); tags.append(100000 + sh[1] if sh[0] == 'b' else 1 + sh[1].idx)
           ops.append(f'QNew {tags[-1]} {sh_term(sh)} ({v_term(sh, d["value"])})')
+          for pth, (j_, q_) in live.items():        # value semantics: the constructor COPIES the argument's value at that moment
+            obs.append('None'); pyobs.append(None)
+            ops.append(f'QAssign false {len(objs) - 1} {TR.t_path(list(pth))} {j_} {TR.t_path(q_)}')
         elif op == 'clone':
           objs.append(objs[d['i']].clone() if d['how'] == 'clone' else copy.deepcopy(objs[d['i']]))
           shapes.append(shapes[d['i']]); tags.append(tags[d['i']]); ops.append(f'QClone {d["i"]}')
@@ -771,7 +799,7 @@ def run(ctx):
         fail('raise', k, f'raised {e!r}', {'traceback': traceback.format_exc()[-800:]})
         return
     steps_of = []          # coq step index -> sequence step index (reunpack is two model steps)
-    for k, d in enumerate(seq): steps_of += [k, k] if d['op'] == 'reunpack' else [k]
+    for k, d in enumerate(seq): steps_of += [k, k] if d['op'] == 'reunpack' else [k] * (1 + len(d.get('live', [])))
     q_cases.append(f'({coq_list(ops)}, {coq_list(obs)})'); q_meta.append((c, seq, ops, pyobs, steps_of))
     for kq, d in enumerate(seq): ctx.count(('seq', c.spec(), json.dumps(seq[:kq + 1], default=str)), True,
                                            cls='seq:' + d['op'] + (':nb' if d.get('nb') else '') + (':' + str(d['rhs']) if 'rhs' in d else ''))
@@ -801,24 +829,24 @@ def run(ctx):
     t = re.sub(r'\b\d{6,}\b', lambda m: hex(int(m.group(0))), t)
     return t if len(t) < 400 else t[:400] + '...'
   bad = ctx.coq_bad_indices('pack', imports, shape_defs, 'shape * value * Z * Z', p_cases,
-                            "let '(T, v, n, u) := c in typed T v && (width T =? n) && (pack T v =? u)", shard=500)
+                            "let '(T, v, n, u) := c in typed T v && (width T =? n) && (pack T v =? u)", shard=280)
   for i in bad[:5]:
     c, v, ob = p_meta[i]
     exp = ctx.coq_eval('pexp', imports, shape_defs, [f"let '(T, v, n, u) := {p_cases[i]} in (width T, pack T v)"])
     viol_value('to_bits', c, f'to_bits() = {hex(ob)} but the property\'s layout gives (width, value) = {hexs(exp[0])}', {'value': v, 'observed': hex(ob), 'expected': exp[0]})
   bad = ctx.coq_bad_indices('unpack', imports, shape_defs, 'shape * Z * value', u_cases,
-                            "let '(T, b, v) := c in veqb (unpack T b) v", shard=500)
+                            "let '(T, b, v) := c in veqb (unpack T b) v", shard=280)
   for i in bad[:5]:
     c, bv, ov = u_meta[i]
     exp = ctx.coq_eval('uexp', imports, shape_defs, [f'unpack T{c.idx} {zlit(bv)}'])
     viol_value('from_bits', c, f'from_bits({hex(bv)}) builds {ov} but the layout gives {hexs(exp[0])}', {'bits': hex(bv), 'observed': ov, 'expected': exp[0]})
   bad = ctx.coq_bad_indices('eq', imports, shape_defs, 'shape * value * value * bool', e_cases,
-                            "let '(T, v, w, r) := c in Bool.eqb r (veqb v w) && Bool.eqb r (pack T v =? pack T w)", shard=500)
+                            "let '(T, v, w, r) := c in Bool.eqb r (veqb v w) && Bool.eqb r (pack T v =? pack T w)", shard=300)
   for i in bad[:5]:
     c, v, w_, r = e_meta[i]
     viol_value('eq', c, f'== returned {r} but the packed values are {"different" if r else "equal"}', {'value': v, 'other': w_, 'observed': r})
   bad = ctx.coq_bad_indices('store', imports, '', 'sc_op * value * value * bool * path * Z * (value * value)', s_cases,
-                            "let '(op, va, vb, who, p, u, obs) := c in let r := run_scenario op va vb who p u in veqb (fst r) (fst obs) && veqb (snd r) (snd obs)", shard=400)
+                            "let '(op, va, vb, who, p, u, obs) := c in let r := run_scenario op va vb who p u in veqb (fst r) (fst obs) && veqb (snd r) (snd obs)", shard=170)
   for i in bad[:6]:
     c, op, va, vb, who, p, u, obs, hows = s_meta[i]
     exp = ctx.coq_eval('sexp', imports, '', [f"let '(op, va, vb, who, p, u, obs) := {s_cases[i]} in run_scenario op va vb who p u"])
